@@ -3,8 +3,9 @@
  * record-layer harnesses (DESIGN.md 1.3 (b)):
  *   - toy CBC block "ciphers" (block size TOY_BLK, x -> x ^ K, real CBC
  *     chaining on top) with the real br_block_cbcenc/cbcdec_class layout;
- *   - a toy MAC bound at the link-time seam br_hmac_* (sum / rotate-by-one
- *     accumulator; every input byte and its position influence the output).
+ *   - a toy MAC bound at the link-time seam br_hmac_* (16 one-byte lanes,
+ *     add / rotate-by-one-xor; the key, every input byte, its position and
+ *     the total length influence the output).
  * They are not the units under test.
  */
 #ifndef STUBS_REC_H
@@ -61,50 +62,77 @@ static const br_block_cbcdec_class toy_cbcdec_vtable = { sizeof(toy_cbcdec), TOY
 static const br_block_cbcenc_class toy_cbcenc_vtable = { sizeof(toy_cbcenc), TOY_BLK, TOY_LOGBLK, toy_cbcenc_init, toy_cbcenc_run };
 
 #ifndef NO_TOY_HMAC
-/* toy MAC at the br_hmac_* link seam; accumulator kept in kso[0..8) */
-static uint64_t toy_mix(uint64_t a, unsigned b)
+/*
+ * Toy MAC at the br_hmac_* link seam.  State = 16 one-byte lanes kept in
+ * kso[0..16) (keyed start value in ksi[0..16)), kso[16] = number of bytes
+ * absorbed so far mod 16, kso[17..19) = total number of bytes absorbed.
+ * Byte number p of the input goes to lane p mod 16:
+ *     lane = (lane + byte + 1) ^ rotl8(next lane, 1)
+ * (a bijection of the absorbing lane, so a difference in one input byte never
+ * cancels; the neighbour term makes the lanes and hence the byte positions
+ * interact).  Finalisation absorbs the total length into every lane, so the
+ * output depends on every input byte, its position, the key and the length.
+ * All operations are 8 bits wide: cheap for the SAT back ends, also in the
+ * "constant-time" variant where the data length is symbolic (one 8-bit
+ * multiplexer per byte).  br_hmac_out(update(data,len)) == br_hmac_outCT(data,len,..).
+ */
+static unsigned char toy_lane(unsigned char s, unsigned char next, unsigned b)
 {
-	uint32_t lo = (uint32_t)a + b + 1;
-	uint32_t hi = (uint32_t)(a >> 32);
-	hi = ((hi << 1) | (hi >> 31)) ^ b;
-	return ((uint64_t)hi << 32) | lo;
+	return (unsigned char)((unsigned char)(s + b + 1) ^ (unsigned char)((next << 1) | (next >> 7)));
+}
+static void toy_fin(const unsigned char *lanes, size_t total, size_t n, unsigned char *out)
+{
+	unsigned char s[16];
+	for (int i = 0; i < 16; i++) s[i] = lanes[i];
+	for (int i = 0; i < 16; i++) s[i] = toy_lane(s[i], s[(i + 1) & 15], (unsigned char)(total >> ((i & 1) * 8)));
+	for (int i = 0; i < 16; i++) s[i] = toy_lane(s[i], s[(i + 1) & 15], 0xA5);
+	for (size_t i = 0; i < n; i++)
+		out[i] = (unsigned char)(s[i & 15] + s[(i + 1 + (i >> 4)) & 15] + (i >> 4));
 }
 void br_hmac_key_init(br_hmac_key_context *kc, const br_hash_class *d, const void *key, size_t len)
 {
-	uint64_t a = 1;
 	kc->dig_vtable = d;
-	for (size_t i = 0; i < len; i++) a = toy_mix(a, ((const unsigned char *)key)[i]);
-	br_enc64le(kc->ksi, a);
+	for (int i = 0; i < 16; i++) kc->ksi[i] = (unsigned char)(i + 1 + len);
+	for (size_t i = 0; i < len; i++)
+		kc->ksi[i & 15] = toy_lane(kc->ksi[i & 15], kc->ksi[(i + 1) & 15], ((const unsigned char *)key)[i]);
 }
 void br_hmac_init(br_hmac_context *ctx, const br_hmac_key_context *kc, size_t out_len)
 {
-	for (int i = 0; i < 8; i++) ctx->kso[i] = kc->ksi[i];
+	for (int i = 0; i < 16; i++) ctx->kso[i] = kc->ksi[i];
+	ctx->kso[16] = ctx->kso[17] = ctx->kso[18] = 0;
 	ctx->out_len = out_len;
 }
 void br_hmac_update(br_hmac_context *ctx, const void *data, size_t len)
 {
-	uint64_t a = br_dec64le(ctx->kso);
-	for (size_t i = 0; i < len; i++) a = toy_mix(a, ((const unsigned char *)data)[i]);
-	br_enc64le(ctx->kso, a);
-}
-static void toy_fin(uint64_t a, size_t n, unsigned char *out)
-{
-	for (size_t i = 0; i < n; i++) { a = toy_mix(a, 0xA5); out[i] = (unsigned char)((a >> 32) ^ (a >> 45) ^ a ^ (a >> 8)); }
+	unsigned pos = ctx->kso[16];
+	size_t total = (size_t)ctx->kso[17] | ((size_t)ctx->kso[18] << 8);
+	for (size_t i = 0; i < len; i++) {
+		unsigned l = (unsigned)((pos + i) & 15);
+		ctx->kso[l] = toy_lane(ctx->kso[l], ctx->kso[(l + 1) & 15], ((const unsigned char *)data)[i]);
+	}
+	total += len;
+	ctx->kso[16] = (unsigned char)((pos + len) & 15);
+	ctx->kso[17] = (unsigned char)total;
+	ctx->kso[18] = (unsigned char)(total >> 8);
 }
 size_t br_hmac_out(const br_hmac_context *ctx, void *out)
 {
-	toy_fin(br_dec64le(ctx->kso), ctx->out_len, out);
+	toy_fin(ctx->kso, (size_t)ctx->kso[17] | ((size_t)ctx->kso[18] << 8), ctx->out_len, out);
 	return ctx->out_len;
 }
 size_t br_hmac_outCT(const br_hmac_context *ctx, const void *data, size_t len, size_t min_len, size_t max_len, void *out)
 {
+	unsigned char s[16];
+	unsigned pos = ctx->kso[16];
+	size_t total = ((size_t)ctx->kso[17] | ((size_t)ctx->kso[18] << 8)) + len;
 	__CPROVER_assert(min_len <= len && len <= max_len, "br_hmac_outCT precondition min_len <= len <= max_len");
-	uint64_t a = br_dec64le(ctx->kso);
+	for (int i = 0; i < 16; i++) s[i] = ctx->kso[i];
 	for (size_t i = 0; i < max_len; i++) {
-		uint64_t b = toy_mix(a, ((const unsigned char *)data)[i]);
-		a = (i < len) ? b : a;
+		unsigned l = (unsigned)((pos + i) & 15);
+		unsigned char t = toy_lane(s[l], s[(l + 1) & 15], ((const unsigned char *)data)[i]);
+		s[l] = (i < len) ? t : s[l];
 	}
-	toy_fin(a, ctx->out_len, out);
+	toy_fin(s, total & 0xFFFF, ctx->out_len, out);
 	return ctx->out_len;
 }
 #endif
